@@ -24,6 +24,19 @@ func codecTokens(pk *types.Info, body ast.Node, recvName string) []string {
 	return codecTokensD(pk, body, recvName, 0)
 }
 
+// streamParamName: the name of fd's parameter of the given stream type (whatever it is called), or def.
+func streamParamName(info *types.Info, fd *ast.FuncDecl, typeName, def string) string {
+	if fd == nil || fd.Type == nil || fd.Type.Params == nil {
+		return def
+	}
+	for _, f := range fd.Type.Params.List {
+		if t := info.TypeOf(f.Type); t != nil && strings.HasSuffix(t.String(), "common."+typeName) && len(f.Names) > 0 {
+			return f.Names[0].Name
+		}
+	}
+	return def
+}
+
 // c25Prog resolves the body of a private helper (set by runC25).
 var c25Prog *an.Prog
 
@@ -134,7 +147,7 @@ func runC25(c *an.Ctx) {
 			if !ok || fd.Body == nil || !strings.HasPrefix(fd.Name.Name, "Encode") || fd.Name.Name == "EncodeValue" {
 				continue
 			}
-			toks := codecTokens(pk.TypesInfo, fd.Body, "sink")
+			toks := codecTokens(pk.TypesInfo, fd.Body, streamParamName(pk.TypesInfo, fd, "ZeroCopySink", "sink"))
 			// find the tag
 			var tag string
 			ast.Inspect(fd.Body, func(n ast.Node) bool {
@@ -186,7 +199,7 @@ func runC25(c *an.Ctx) {
 				}
 				var toks []string
 				for _, st := range cc.Body {
-					toks = append(toks, codecTokens(pk.TypesInfo, st, "source")...)
+					toks = append(toks, codecTokens(pk.TypesInfo, st, streamParamName(pk.TypesInfo, decl, "ZeroCopySource", "source"))...)
 				}
 				decTokens[id.Name] = toks
 			}
